@@ -52,6 +52,12 @@ THEOREMS = [
     "Opacus.GS.conv_groups_diag",
     "Opacus.C01.unfold2d_channels_last_counterexample",
     "Opacus.C01.conv_padding_mode_counterexample",
+    "Opacus.C01.hooks_pairing",
+    "Opacus.C01.mean_rescale",
+    "Opacus.GSM.run_pass",
+    "Opacus.GSM.step_fwd",
+    "Opacus.GSM.step_bwd",
+    "Opacus.GSM.accRows_closed",
 ]
 RULE = (
     "sampler case = (layer type, hyper-parameters, requires_grad pattern, shapes incl. N=0 and extra middle axes, memory layout of "
